@@ -239,6 +239,33 @@ def parse_tla_value(s):
     return v
 
 
+def tagged_values(out, tag):
+    """All values TLC printed as <<"tag", ...>> (possibly wrapped over several lines), parsed."""
+    vals = []
+    for m in re.finditer(r'<<\s*"%s"\s*,' % re.escape(tag), out):
+        i = m.start()
+        depth = 0
+        j = i
+        while j < len(out):
+            if out.startswith("<<", j):
+                depth += 1
+                j += 2
+                continue
+            if out.startswith(">>", j):
+                depth -= 1
+                j += 2
+                if depth == 0:
+                    break
+                continue
+            if out[j] == '"':
+                mm = re.compile(r'"((?:[^"\\]|\\.)*)"').match(out, j)
+                j = mm.end()
+                continue
+            j += 1
+        vals.append(parse_tla_value(out[i:j])[1:])
+    return vals
+
+
 def verdict_of(res):
     """Extract the single VERDICT record a trace module printed (possibly wrapped over several lines)."""
     out = res.out
